@@ -34,6 +34,16 @@ CHECKS = {
                      "Unsupported optional records may be reported as warnings; AREF lattices are generated aligned with the "
                      "rotated/reflected axes as the format prescribes.",
                 technique="differential property-based testing (Hypothesis) against an independent format codec with encoder choice points"),
+    "C04": dict(level="exploration", design="4 C04",
+                text="Direction A: abstract OASIS layouts serialised by an independent specification-derived encoder under ~100 drawn "
+                     "choice points (modal reuse, relative mode, point-list/repetition/real forms, name tables, CBLOCKs, padding, "
+                     "validation schemes) are loaded by gdstk and compared with the placements they denote. Direction B: C02's "
+                     "libraries and option sets written by gdstk are decoded by my strict decoder and compared with C02's "
+                     "expected library; END length, validation signature, table offsets and every standard property are "
+                     "recomputed from the bytes / the model. Codec self-check in every case.",
+                note="Trusted: pbt/oasref.py + pbt/oasnum.py (format facts: DESIGN Appendix A.2). Properties on name records other than "
+                     "CELLNAME are not generated; S_BOUNDING_BOX is compared with gdstk's own bounding_box (C09).",
+                technique="differential property-based testing (Hypothesis) against an independent specification-derived OASIS codec, both directions"),
     "C05": dict(level="exploration", design="4 C05",
                 text="Generated pairs of polygon groups (simple polygons of six families, snapped to force coincidences, sizes "
                      "64..2^45 grid units, optional feedback of earlier outputs) through all four operations; oracle = exact "
